@@ -368,7 +368,11 @@ func (hs *hist) byHeightAndPage(ledger *api.LedgerApi) {
 	// unreceived blocks: page index < 10, page size <= 50
 	for _, addr := range []types.Address{g.User1.Address, g.User2.Address, g.User3.Address} {
 		t, err := ledger.GetUnreceivedBlocksByAddress(addr, 0, 50)
-		if err != nil || t.Count > 50 {
+		if err != nil {
+			out.Oracle(false, "unreceived-error-only-for-bad-params", Tup(U64(0), U64(50), I64(errClass(err))))
+			continue
+		}
+		if t.Count > 50 {
 			continue
 		}
 		out.Count("unreceived:len=" + U64(uint64(t.Count)).String())
